@@ -1,8 +1,8 @@
 """Names of the property theorems each check requires to be present in Props/<id>.v"""
 C01 = ['C01_prefilter_never_rejects', 'C01_main_diagonal', 'C01_range_survives_fusion_and_cut', 'C01_exact_copy_scores_one', 'C01_candidate_present', 'C01_reported_when_isolated']
-C02 = ['C02_distance_and_span', 'C02_script_cost_bounds_levenshtein', 'C02_levenshtein_is_least_script_cost',
+C02 = ['C02_confidence_bound', 'C02_distance_and_span', 'C02_script_cost_bounds_levenshtein', 'C02_levenshtein_is_least_script_cost',
        'C02_trimming_removes_exactly_the_deleted_words', 'C02_confidence_antitone', 'C02_confidence_one_iff_zero_distance']
-C03 = ['C03_every_match_well_formed', 'C03_lines_ordered', 'C03_token_lines_bounded', 'C03_token_lines_sorted',
+C03 = ['C03_all_in_one', 'C03_sorted_by_confidence', 'C03_every_match_well_formed', 'C03_lines_ordered', 'C03_token_lines_bounded', 'C03_token_lines_sorted',
        'C03_results_are_sorted_candidates', 'C03_sort_sorted', 'C03_confidence_at_most_one', 'C03_ranges_in_bounds']
 C04 = ['C04_order_independent', 'C04_any_sort_same_result', 'C04_less_total', 'C04_sorted_permutation_unique',
        'C04_original_less_not_total', 'C04_original_order_dependent']
@@ -10,7 +10,7 @@ C05 = ['C05_recase', 'C05_whitespace_runs', 'C05_trailing_blanks', 'C05_crlf', '
        'C05_typographic_dashes', 'C05_typographic_quotes', 'C05_blank_lines']
 C06 = ['C06_notice_insert', 'C06_marker_dropped', 'C06_marker_shapes_dot', 'C06_marker_shapes_paren', 'C06_spelling', 'C06_https']
 C07 = ['C07_exact_copy_position_independent_partial']
-C10 = ['C10_match_total', 'C10_ranges_in_bounds', 'C10_offsets_bounded', 'C10_reader_total']
+C10 = ['C10_total_for_valid_oracle', 'C10_match_total', 'C10_ranges_in_bounds', 'C10_offsets_bounded', 'C10_reader_total']
 C11 = ['C11_raw_words_partial', 'C11_lines_monotone_partial']
 C17 = ['C17_offsets_reproduce_text', 'C17_tokens_ordered', 'C17_tokens_cover_non_space', 'C17_candidates_well_formed', 'C17_candidates_ordered', 'C17_target_range_inside_text', 'C17_original_refuted']
 C13 = ['C13_exact_occurrence_span', 'C13_reported_spans_inside_text']
